@@ -123,6 +123,11 @@ func cmdCheck(args []string) int {
 	start := time.Now()
 	w, err := loadWorld(o.repo, nil)
 	c := newCtx(o.id, o.tier, o.seed, w)
+	if o.tier == "thorough" {
+		// deeper exploration bounds
+		maxBodyCalls, maxResumes = 4, 3
+		termDeep = true
+	}
 	if err == nil {
 		c.guard("META.RUN", func() { spec.Run(c) })
 		if !o.noControls {
